@@ -1,11 +1,16 @@
 import NA.Proofs.C15Dec
+import NA.Model.IosRemoveBanner
+import NA.Model.IosTiming
 import NA.Core.IOUtil
 /-! Driver for C15 (core only). One case per line, fields separated by TAB; inside a field the
 characters `\ LF TAB CR BEL | ; = ,` are written `\\ \n \t \r \a \p \s \e \c`.
 
 * `find <s>`                                  → `none` or `<pre> TAB <msg> TAB <post>`   (bannerRe)
 * `strip <fixedIgnored> <active> <out> <pend>` → `<ok|abort…> TAB <out'> TAB <need> TAB <pend'>`  (stripReloadBanner)
-* `dialog <fixed> <noAsk> <changes |> <behavs |> <specials |>` →   (noAsk: device does not ask `Save? [yes/no]`)
+* `rmbanner <data>` → removeBanner;  `bstart <line>` → delimiter of a banner start line or `none`
+* `getout <pend>` / `waithash <pend>` → GetOutput / WaitShort("[#] ?$") on the whole stream: `<ok|abort…> TAB <out> TAB <rest>`
+* `chunks <p|h> <buf> <chunks |>` → expectChunks: `<consumed> TAB <rest> TAB <#pieces left>` or `none`
+* `dialog <fixed> <noAsk> <late> <changes |> <behavs |> <specials |>` →   (late: second prompt of a two-prompt answer arrives with the next answer)   (noAsk: device does not ask `Save? [yes/no]`)
       `R=<result> TAB T=<lines |> TAB W=<cmd,line |> TAB G=<guardOK>,<pendingAfter>,<rearms>,<changes>
        TAB H=<Chg.cleanB of all>,<Chg.noProbeFirstB of all>,<specOk>` (hypotheses of the banner theorems)
   behav = `<form>,<msg>,<out>` with form `N`, `A<pad>`, `B<off>`, `C<pad>`, `D`;
@@ -98,15 +103,43 @@ def answer (line : String) : String :=
     match stripReloadBanner (σ := Unit) (un out) st with
     | (.ok (o, need), st') => s!"ok\t{esc o}\t{b2s need}\t{esc st'.pend}"
     | (.abort e, st') => s!"abort:{showAbort e}\t\t0\t{esc st'.pend}"
-  | ["dialog", fx, na, cs, bs, sp] =>
+  | ["rmbanner", d] => esc (removeBanner (un d))
+  | ["bstart", l] =>
+    match bannerStart (un l) with
+    | none => "none"
+    | some c => esc [c]
+  | ["getout", pend] =>
+    -- GetOutput on the whole stream (fast device); real side: the same bytes arriving in pieces
+    let st : St Unit := { dev := (), pend := un pend }
+    match getOutput (σ := Unit) st with
+    | (.ok o, st') => s!"ok\t{esc o}\t{esc st'.pend}"
+    | (.abort e, st') => s!"abort:{showAbort e}\t\t{esc st'.pend}"
+  | ["waithash", pend] =>
+    let st : St Unit := { dev := (), pend := un pend }
+    match waitHashEnd (σ := Unit) st with
+    | (.ok o, st') => s!"ok\t{esc o}\t{esc st'.pend}"
+    | (.abort e, st') => s!"abort:{showAbort e}\t\t{esc st'.pend}"
+  | ["chunks", kind, buf, cks] =>
+    let m := if kind == "h" then hashEnd else promptEnd
+    match expectChunks m (un buf) ((splitList cks "|").map un) with
+    | none => "none"
+    | some (a, r, cs) => s!"{esc a}\t{esc r}\t{cs.length}"
+  | ["dialog", fx, na, late, cs, bs, sp] =>
     match (splitList bs "|").mapM parseBehav, (splitList sp "|").mapM parseSpecial with
     | some behavs, some specials =>
       let changes := (splitList cs "|").map un
       let st : St SimSt := { dev := { queue := behavs } }
-      let (r, st') := applyCommands (simDevice specials (na == "1")) (fx == "1") changes st
-      let ls := linesOf st'.trace
+      let (r, tr, wr) :=
+        if late == "1" then
+          let (r, st') := applyCommands (lateDevice (simDevice specials (na == "1"))) (fx == "1") changes
+            { dev := (({ queue := behavs } : SimSt), []) }
+          (r, st'.trace, st'.warns)
+        else
+          let (r, st') := applyCommands (simDevice specials (na == "1")) (fx == "1") changes st
+          (r, st'.trace, st'.warns)
+      let ls := linesOf tr
       let g := Guard.run ls
-      let ws := "|".intercalate (st'.warns.map fun (c, l) => esc c ++ "," ++ esc l)
+      let ws := "|".intercalate (wr.map fun (c, l) => esc c ++ "," ++ esc l)
       let hyp := match mkChgs changes behavs with
         | some gs => s!"{b2s (gs.all Chg.cleanB)},{b2s (gs.all Chg.noProbeFirstB)},{b2s (specOk gs)}"
         | none => "0,0,0"
